@@ -1,7 +1,7 @@
 """
 C13 -- Static analysis facts hold on every execution.
 
-Space: every program of five bounded grammars (mc.engine.progen_c13: J joins, P loop-carried constants,
+Space: every program of six bounded grammars (mc.engine.progen_c13: J joins, P loop-carried constants, T tuple rows,
 V value-class ladders, L list/alias routes, Z sizes) x the complete product of
 small per-family argument pools chosen to steer every branch outcome, trip
 count and value class.  Each accepted program is analysed once with the real
@@ -592,7 +592,7 @@ def _def_text(f: Facts, d) -> str:
 
 class Check(BaseCheck):
     pid = 'C13'
-    rule = ('all programs of grammars J (joins), P (loop-carried constants), V (value-class ladders and chains), L (list/alias routes), Z (sizes) up to the '
+    rule = ('all programs of grammars J (joins), P (loop-carried constants), V (value-class ladders and chains), T (lists of tuples holding lists), L (list/alias routes), Z (sizes) up to the '
             'tier size x the full product of the per-family argument pools; every returning execution is traced and '
             'every expression/definition event compared with TypeInfer, ArraySizeInfer, ValueClassInfer, PartialEval, '
             'DefineUse and Alias facts. nontrivial = (program, input) whose execution returns and in which at least '
